@@ -210,8 +210,8 @@ let maxn = 6
 (* which (adaptor, kind, mode, length) combinations exist in the C++ driver *)
 let iter_valid en kind mode n =
   match kind with
-  | "vec" | "list" | "map" | "fv" -> List.mem mode ["l"; "c"; "r"; "m"]
-  | "arr" -> n <= maxn && List.mem mode ["l"; "c"; "r"; "m"]
+  | "vec" | "list" | "map" | "fv" -> List.mem mode ["l"; "c"; "r"; "m"; "k"; "s"; "q"]
+  | "arr" -> n <= maxn && List.mem mode ["l"; "c"; "r"; "m"; "k"; "s"; "q"]
   | "carr" -> n >= 1 && n <= maxn && List.mem mode ["l"; "c"]
   | "il" -> n <= maxn && (match mode with "r" -> n >= 1 | "m" -> true | "l" | "c" -> en | _ -> false)
   | _ -> false
